@@ -652,6 +652,21 @@ func (x *Exec) coroAwait(st *State, fr *Frame, c *callCtx) bool {
 	return x.finish(st, fr, c, x.symbolicResult(st, c))
 }
 
+func (x *Exec) recordAwait(st *State, c *callCtx, res []Value) {
+	var as []TV
+	if c.ret != nil {
+		if tup, ok := c.ret.Type().(*types.Tuple); ok {
+			for i := 0; i < tup.Len(); i++ {
+				as = append(as, TV{nil, tup.At(i).Type()})
+			}
+		}
+	}
+	if len(as) != len(res) {
+		return
+	}
+	st.rec = append(append([]recordedCall(nil), st.rec...), recordedCall{Name: "await", Args: as, Results: res})
+}
+
 // awaitKind produces the result of awaiting an awaitable whose origin is known
 // only by kind (it was read back from a slice filled in a loop).
 func (x *Exec) awaitKind(st *State, fr *Frame, c *callCtx, kind string) bool {
@@ -662,14 +677,20 @@ func (x *Exec) awaitKind(st *State, fr *Frame, c *callCtx, kind string) bool {
 	case kind == "sender":
 		fail := x.sym.Fresh("await.sender.fails", SBool)
 		ts, fs := x.fork(st, fail, "awaited sender submission failed")
+		// the outcome is recorded as a call named "await" (results: completion, error), so that a contract can
+		// talk about what was awaited in this iteration without naming the local it was assigned to
 		if ts != nil {
-			x.completeCall(ts, c, VTuple{[]Value{VPtr{Nil: TTrue, Typ: types.NewPointer(complT)}, x.freshErr(ts, "aio.err", TFalse)}})
+			res := []Value{VPtr{Nil: TTrue, Typ: types.NewPointer(complT)}, x.freshErr(ts, "aio.err", TFalse)}
+			x.recordAwait(ts, c, res)
+			x.completeCall(ts, c, VTuple{res})
 		}
 		if fs != nil {
 			ok := x.sym.Fresh("await.sender.success", SBool)
 			sc := x.newStruct(fs, x.taioType("SenderCompletion"), map[string]Value{"Success": VScalar{ok}})
 			compl := x.newStruct(fs, complT, map[string]Value{"Kind": VScalar{IntLit(2)}, "Sender": sc})
-			x.completeCall(fs, c, VTuple{[]Value{compl, VIface{Nil: TTrue, Typ: errType()}}})
+			res := []Value{compl, VIface{Nil: TTrue, Typ: errType()}}
+			x.recordAwait(fs, c, res)
+			x.completeCall(fs, c, VTuple{res})
 		}
 		return true
 	case strings.HasPrefix(kind, "spawn:"):
